@@ -262,7 +262,7 @@ func genC18(tier string, seed uint64, emit func(string)) {
 	r := &rng{s: seed}
 	n := 500
 	if tier == "thorough" {
-		n = 30000
+		n = 5000
 	}
 	cops := []string{"v", "g", "c", "j", "vc", "vj"}
 	eops := []string{"eV", "eV", "ej", "eg"}
